@@ -805,6 +805,9 @@ impl<'a> Ctx<'a> {
         if self.f.model && !self.in_template {
             kinds.push("mnest");
         }
+        if self.f.model && !self.in_template && self.prop == Prop::C11 {
+            kinds.push("mobs");
+        }
         if self.f.dyn_slots {
             kinds.extend(["dyn", "dyn", "dynnk", "dynt", "dynn", "dynself", "dynself"]);
         }
@@ -901,6 +904,15 @@ impl<'a> Ctx<'a> {
                 let o = if self.r.chance(0.7) { id("obj") } else { self.object_leaf() };
                 attrs.push(Attr { name: "model:p".into(), val: AttrVal::Bind(o) });
                 Node::El { tag: "mnest".into(), attrs, children: vec![] }
+            }
+            "mobs" => {
+                // a child whose data observer clamps the model-bound `val` to `max`: a host update
+                // makes the child write the property again, and that write must reach the host
+                let v = *self.r.pick(&["a", "b", "c", "d"]);
+                let m = *self.r.pick(&["a", "b", "c", "d", "n"]);
+                attrs.push(Attr { name: "model:val".into(), val: AttrVal::Bind(id(v)) });
+                attrs.push(Attr { name: "max".into(), val: AttrVal::Bind(if m == v { Expr::Num("150".into()) } else { id(m) }) });
+                Node::El { tag: "mobs".into(), attrs, children: vec![] }
             }
             "mchild" => {
                 let (e, ok) = self.model_expr();
@@ -1291,6 +1303,7 @@ pub fn catalogue_file(kind: &str) -> TFile {
         "styled" => "<text>Y:{{style}}:{{p}}</text>",
         "multi" => "<view id=\"sa\"><slot name=\"a\"/></view><view id=\"sb\"><slot name=\"b\"/></view><text>M:{{p}}</text><slot/>",
         "mchild" => "<text>V:{{val}}</text>",
+        "mobs" => "<text>O:{{val}}:{{max}}</text>",
         "dyn" => "<text>D:{{p}}</text><block wx:for=\"{{items}}\" wx:key=\"k\"><slot sv=\"{{item}}\" si=\"{{index}}\"/></block>",
         "dynnk" => "<text>E:{{p}}</text><block wx:for=\"{{items}}\"><slot sv=\"{{item}}\" si=\"{{index}}\"/></block>",
         "dynself" => "<text>S:{{own.length}}:{{p}}</text><block wx:for=\"{{own}}\" wx:key=\"k\"><slot sv=\"{{item}}\" si=\"{{index}}\" sl=\"{{item.sub}}\"/></block>",
@@ -1312,6 +1325,7 @@ pub fn catalogue_component(kind: &str) -> Value {
         "dynnk" => json!({"is": "dynnk", "path": "comp/dynnk", "options": {"dynamicSlots": true}, "properties": {"items": {"type": "any", "value": []}, "p": {"type": "any", "value": null}}}),
         "dynself" => json!({"is": "dynself", "path": "comp/dynself", "options": {"dynamicSlots": true}, "properties": {"p": {"type": "any", "value": null}}, "data": {"own": [{"k": 1, "v": "o1", "w": "p1", "sub": [{"k": 11, "v": "x1"}]}, {"k": 2, "v": "o2", "w": "p2", "sub": []}]}}),
         "mnest" => json!({"is": "mnest", "path": "comp/mnest", "properties": {"p": {"type": "any", "value": null}}}),
+        "mobs" => json!({"is": "mobs", "path": "comp/mobs", "properties": {"val": {"type": "any", "value": null}, "max": {"type": "any", "value": null}}, "clamp": {"prop": "val", "max": "max"}}),
         "dynn" => json!({"is": "dynn", "path": "comp/dynn", "options": {"dynamicSlots": true}, "properties": {"p": {"type": "any", "value": null}}}),
         "dynt" => json!({"is": "dynt", "path": "comp/dynt", "options": {"dynamicSlots": true}, "properties": {"p": {"type": "any", "value": null}}}),
         _ => json!({}),
